@@ -1,7 +1,7 @@
 (* C11 — move notations (PTN short / long, playtak wire) round-trip and agree.
    Only statements, `exact`, and Print Assumptions live here. *)
 From Coq Require Import NArith ZArith List Bool.
-Require Import PtnMove Playtak PtnMoveFacts.
+Require Import PtnMove Playtak PtnMoveFacts PtnMoveFacts2.
 Import ListNotations.
 
 (* legal_shape m: a placement on the 8x8 grid with Slides = 0, or a slide from a grid square in one of
@@ -27,6 +27,50 @@ Corollary C11_notations_agree : forall m, legal_shape m -> end_on_grid m = true 
 Proof. exact notations_agree. Qed.
 Print Assumptions C11_notations_agree.
 
-(* C11_partial: `annotations_ignored` (forall rest, annot c -> parse_move (format_move[_long] m ++ c :: rest) = Ok m)
-   quantifies over arbitrary suffixes and is not yet a theorem; the correspondence checks ten suffix shapes on
-   every move of the enumeration. *)
+(* Annotation suffixes never change the parsed move: after the canonical text of a legal-shaped move, an annotation
+   byte (one of ! ? * ') followed by ARBITRARY bytes parses to the same move.  Structural proof (the parser stops at
+   the first annotation byte: parse_move_annot_suffix) on top of the enumerated round trip. *)
+Theorem C11_annotations_ignored : forall long m c rest, legal_shape m -> is_annot c = true ->
+  parse_move (format_move long m ++ c :: rest) = Ok m.
+Proof. exact annotations_ignored. Qed.
+Print Assumptions C11_annotations_ignored.
+
+(* the structural half on its own, for every byte list s (not only canonical texts) *)
+Theorem C11_annot_suffix_any_text : forall s c rest m, is_annot c = true ->
+  parse_move s = Ok m -> parse_move (s ++ c :: rest) = Ok m.
+Proof. exact parse_move_annot_suffix. Qed.
+Print Assumptions C11_annot_suffix_any_text.
+
+(* No silent different move (support for C13): whatever the PTN parser accepts, for any byte list, is a
+   legal-shaped move -- square on the 8x8 grid, one of the seven real type codes, Slides = 0 for placements,
+   a non-empty drop list with drops >= 1 and total <= 8 for slides. *)
+Theorem C11_parse_move_legal_shape : forall s m, parse_move s = Ok m -> legal_shape m.
+Proof. exact parse_move_legal_shape. Qed.
+Print Assumptions C11_parse_move_legal_shape.
+
+Corollary C11_parse_move_fields : forall s m, parse_move s = Ok m ->
+  (0 <= mX m < 8)%Z /\ (0 <= mY m < 8)%Z /\ (2 <= mT m <= 8)%N.
+Proof. exact parse_move_fields. Qed.
+Print Assumptions C11_parse_move_fields.
+
+(* so every accepted text denotes a move whose canonical spellings parse back to it *)
+Corollary C11_parse_format_parse : forall long s m, parse_move s = Ok m -> parse_move (format_move long m) = Ok m.
+Proof. exact parse_format_parse. Qed.
+Print Assumptions C11_parse_format_parse.
+
+(* The playtak wire parser: accepted squares are on the grid (A..H / 1..8), the type is a real one, placements
+   have Slides = 0, slide drops are <= 8.  NOT guaranteed (false of the code): drops >= 1, number of drops equal to
+   the distance, total <= 8 -- "M A1 B1 0" is accepted (PtnMoveFacts2.parse_server_accepts_zero_drop); such moves
+   are refused later by Position.Move. *)
+Theorem C11_parse_server_shape : forall s m, parse_server s = Ok m ->
+  (0 <= mX m < 8)%Z /\ (0 <= mY m < 8)%Z /\
+  (((mT m = PlaceFlat \/ mT m = PlaceStanding \/ mT m = PlaceCapstone) /\ mS m = 0%N) \/
+   ((mT m = SlideLeft \/ mT m = SlideRight \/ mT m = SlideUp \/ mT m = SlideDown) /\
+    exists ds, Forall (fun d => (d <= 8)%N) ds /\ mS m = mk_slides ds)).
+Proof. exact parse_server_shape. Qed.
+Print Assumptions C11_parse_server_shape.
+
+Corollary C11_parse_server_fields : forall s m, parse_server s = Ok m ->
+  (0 <= mX m < 8)%Z /\ (0 <= mY m < 8)%Z /\ (2 <= mT m <= 8)%N.
+Proof. exact parse_server_fields. Qed.
+Print Assumptions C11_parse_server_fields.
